@@ -359,6 +359,45 @@ Proof.
   apply filter_In in Hin. tauto.
 Qed.
 
+Lemma takew_length_le {A} (f : A -> bool) : forall l, length (takew f l) <= length l.
+Proof. induction l as [|a l IH]; simpl; [lia|]. destruct (f a); simpl; lia. Qed.
+
+Lemma takew_idem {A} (f : A -> bool) : forall l, takew f (takew f l) = takew f l.
+Proof. induction l as [|a l IH]; [reflexivity|]. simpl. destruct (f a) eqn:E; [simpl; rewrite E, IH|]; reflexivity. Qed.
+
+Lemma takew_In {A} (f : A -> bool) : forall l x, In x (takew f l) -> In x l /\ f x = true.
+Proof.
+  induction l as [|a l IH]; intros x H; [destruct H|]. simpl in H. destruct (f a) eqn:E; [|destruct H].
+  destruct H as [<-|H]; [split; [now left|exact E]|]. destruct (IH x H). split; [now right|assumption].
+Qed.
+
+Lemma takew_prefix {A} (f : A -> bool) : forall l, takew f l = firstn (length (takew f l)) l.
+Proof. induction l as [|a l IH]; [reflexivity|]. simpl. destruct (f a); [simpl; now f_equal|reflexivity]. Qed.
+
+Lemma takew_all {A} (f : A -> bool) : forall l, (forall x, In x l -> f x = true) -> takew f l = l.
+Proof.
+  induction l as [|a l IH]; intros H; [reflexivity|]. simpl. rewrite (H a) by now left.
+  f_equal. apply IH. intros x Hx. apply H. now right.
+Qed.
+
+(* the prefix is the whole filter as soon as the lengths agree *)
+Lemma takew_filter_len {A} (f : A -> bool) : forall l, length (takew f l) = length (filter f l) -> takew f l = filter f l.
+Proof.
+  induction l as [|a l IH]; intros H; [reflexivity|]. simpl in *. destruct (f a).
+  - simpl in H. f_equal. apply IH. lia.
+  - simpl in H. symmetry. apply length_zero_iff_nil. lia.
+Qed.
+
+Lemma takew_upper_sorted j : forall (l : list (nat * V)), sinc (map fst l) ->
+  takew (keep_upper j) l = filter (keep_upper j) l.
+Proof.
+  induction l as [|[a v] l IH]; intros H; [reflexivity|].
+  simpl in H. destruct H as [Ha Hs]. simpl. change (keep_upper j (a, v)) with (a <=? j).
+  destruct (a <=? j) eqn:E.
+  - f_equal. now apply IH.
+  - apply Nat.leb_gt in E. now rewrite (filter_upper_nil j l a E Ha).
+Qed.
+
 End FilterPrefix.
 
 (* ================= structure of triu ================= *)
@@ -405,13 +444,13 @@ Proof.
   assert (Hc : triu_cols (triu A) = triu_cols A).
   { unfold triu_cols. rewrite triu_ncols. apply map_ext_in.
     intros j Hj. apply in_seq in Hj. unfold triu_col at 1. rewrite col_entries_triu by lia.
-    unfold triu_col. apply filter_idem. }
+    unfold triu_col. apply takew_idem. }
   unfold triu at 1. cbv zeta. rewrite Hc. reflexivity.
 Qed.
 
 Lemma In_triu_col A j e : In e (triu_col A j) -> In e (combine (rowind A) (vals A)) /\ fst e <= j.
 Proof.
-  unfold triu_col, col_entries. intros H. apply filter_In in H. destruct H as [H1 H2].
+  unfold triu_col, col_entries. intros H. apply takew_In in H. destruct H as [H1 H2].
   split; [eapply In_seg; exact H1|]. unfold keep_upper in H2. now apply Nat.leb_le.
 Qed.
 
@@ -489,36 +528,58 @@ Proof.
   unfold sorted_cols in Hs. rewrite forallb_forall in Hs. apply Hs. apply in_seq. lia.
 Qed.
 
+(* in a sorted column the code's prefix is the whole upper part *)
+Lemma triu_col_filter_sorted A j : wf_csc A = true -> sorted_cols A = true -> j < ncols A ->
+  triu_col A j = triu_filter_col A j.
+Proof. intros H Hs Hj. unfold triu_col, triu_filter_col. apply takew_upper_sorted. now apply sorted_cols_col. Qed.
+
+Lemma upper_first_col A j : upper_first_cols A = true -> j < ncols A -> triu_col A j = triu_filter_col A j.
+Proof.
+  intros H Hj. unfold upper_first_cols in H. rewrite forallb_forall in H.
+  assert (Hin : In j (seq 0 (ncols A))) by (apply in_seq; lia). specialize (H j Hin). apply Nat.eqb_eq in H.
+  unfold triu_col, triu_filter_col in *. now apply takew_filter_len.
+Qed.
+
+Lemma sorted_upper_first A : wf_csc A = true -> sorted_cols A = true -> upper_first_cols A = true.
+Proof.
+  intros H Hs. unfold upper_first_cols. apply forallb_forall. intros j Hj. apply in_seq in Hj.
+  apply Nat.eqb_eq. rewrite triu_col_filter_sorted by (auto; lia). reflexivity.
+Qed.
+
+Lemma sinc_triu_col A j : wf_csc A = true -> sorted_cols A = true -> j < ncols A -> sinc (map fst (triu_col A j)).
+Proof.
+  intros H Hs Hj. rewrite triu_col_filter_sorted by assumption. unfold triu_filter_col. apply sinc_filter.
+  now apply sorted_cols_col.
+Qed.
+
 Lemma sorted_cols_triu A : wf_csc A = true -> sorted_cols A = true -> sorted_cols (triu A) = true.
 Proof.
   intros H Hs. unfold sorted_cols. apply forallb_forall. intros j Hj. apply in_seq in Hj.
   rewrite triu_ncols in Hj. rewrite <- col_entries_rows by (now apply wf_triu).
-  rewrite col_entries_triu by lia. apply sinc_incb. unfold triu_col. apply sinc_filter.
-  apply sorted_cols_col; auto; lia.
+  rewrite col_entries_triu by lia. apply sinc_incb. apply sinc_triu_col; auto; lia.
 Qed.
 
-(* the key fact: in a sorted column the kept entries are the first ones *)
-Lemma triu_col_prefix A j : wf_csc A = true -> sorted_cols A = true -> j < ncols A ->
-  triu_col A j = firstn (length (triu_col A j)) (col_entries A j).
-Proof. intros H Hs Hj. unfold triu_col. apply filter_upper_prefix. now apply sorted_cols_col. Qed.
+(* the key fact: the kept entries are the first ones of the column (by construction; no sortedness needed) *)
+Lemma triu_col_prefix A j : triu_col A j = firstn (length (triu_col A j)) (col_entries A j).
+Proof. unfold triu_col. apply takew_prefix. Qed.
 
 Lemma triu_col_length_le A j : length (triu_col A j) <= nth (S j) (colptr A) 0 - nth j (colptr A) 0.
 Proof.
-  unfold triu_col. etransitivity; [apply filter_length_le'|]. unfold col_entries. apply seg_length_le.
+  unfold triu_col. etransitivity; [apply takew_length_le|]. unfold col_entries. apply seg_length_le.
 Qed.
 
-Lemma triu_col_vals_prefix A j : wf_csc A = true -> sorted_cols A = true -> j < ncols A ->
+Lemma triu_col_vals_prefix A j : wf_csc A = true ->
   map snd (triu_col A j) = firstn (length (triu_col A j)) (skipn (nth j (colptr A) 0) (vals A)).
 Proof.
-  intros H Hs Hj. rewrite (triu_col_prefix A j H Hs Hj) at 1.
+  intros H. rewrite (triu_col_prefix A j) at 1.
   rewrite <- firstn_map, col_entries_vals by exact H. unfold seg. rewrite firstn_firstn.
   rewrite Nat.min_l by apply triu_col_length_le. reflexivity.
 Qed.
 
-Lemma triu_col_rows_prefix A j : wf_csc A = true -> sorted_cols A = true -> j < ncols A ->
+Lemma triu_col_rows_prefix A j : wf_csc A = true ->
   map fst (triu_col A j) = firstn (length (triu_col A j)) (skipn (nth j (colptr A) 0) (rowind A)).
 Proof.
-  intros H Hs Hj. rewrite (triu_col_prefix A j H Hs Hj) at 1.
+  intros H. rewrite (triu_col_prefix A j) at 1.
   rewrite <- firstn_map, col_entries_rows by exact H. unfold seg. rewrite firstn_firstn.
   rewrite Nat.min_l by apply triu_col_length_le. reflexivity.
 Qed.
@@ -560,12 +621,12 @@ Proof.
       assert (Hn : r =? i = false) by (apply Nat.eqb_neq; lia). rewrite Hn. symmetry. apply Qcplus_0_l.
 Qed.
 
-Lemma triu_get (A : csc F) i j : wf_csc A = true ->
+Lemma triu_get (A : csc F) i j : wf_csc A = true -> upper_first_cols A = true ->
   csc_get (triu A) i j = if i <=? j then csc_get A i j else 0%Qc.
 Proof.
-  intros H. rewrite !csc_get_entries by (auto using wf_triu).
+  intros H Hu. rewrite !csc_get_entries by (auto using wf_triu).
   destruct (Nat.lt_ge_cases j (ncols A)) as [Hj|Hj].
-  - rewrite col_entries_triu by exact Hj. apply col_sum_filter.
+  - rewrite col_entries_triu by exact Hj. rewrite (upper_first_col A j Hu Hj). apply col_sum_filter.
   - rewrite !col_entries_overflow by (auto using wf_triu). destruct (i <=? j); reflexivity.
 Qed.
 
@@ -583,11 +644,11 @@ Qed.
 
 (* the copy loop writes exactly the value array of triu P, whatever Pu held before *)
 Lemma update_P_copy_vals (Pu P : csc F) :
-  wf_csc P = true -> sorted_cols P = true ->
+  wf_csc P = true ->
   colptr Pu = colptr (triu P) -> length (vals Pu) = length (vals (triu P)) ->
   for_range 0 (ncols P) (copy_col (colptr Pu) (colptr P) (vals P)) (vals Pu) = Ok (vals (triu P)).
 Proof.
-  intros HP Hs Hcp Hlen. pose proof (wf_csc_props P HP) as HPp.
+  intros HP Hcp Hlen. pose proof (wf_csc_props P HP) as HPp.
   set (chunks := map (map snd) (triu_cols P)).
   assert (Hn : length chunks = ncols P) by (unfold chunks; now rewrite map_length, triu_cols_length).
   assert (Hcc : concat chunks = vals (triu P)) by (unfold chunks; now rewrite <- concat_map).
@@ -605,16 +666,22 @@ Proof.
   - now rewrite Hcc.
 Qed.
 
-Theorem update_P_copy_is_triu (Pu P : csc F) :
-  wf_csc Pu = true -> wf_csc P = true -> sorted_cols P = true -> same_pattern (triu P) Pu ->
+(* whatever the order inside the caller's columns: the copy loop reproduces what setup would store *)
+Theorem update_P_copy_is_triu_any (Pu P : csc F) :
+  wf_csc Pu = true -> wf_csc P = true -> same_pattern (triu P) Pu ->
   update_P_copy Pu P = Ok (triu P).
 Proof.
-  intros HPu HP Hs (Hr & Hc & Hcp & Hri). unfold update_P_copy.
+  intros HPu HP (Hr & Hc & Hcp & Hri). unfold update_P_copy.
   rewrite update_P_copy_vals; auto.
   - cbn [bind]. rewrite <- Hr, <- Hc, <- Hcp, <- Hri. reflexivity.
   - apply wf_csc_props in HPu. rewrite (wfp_vals Pu HPu), <- Hri, triu_vals, triu_rowind.
     now rewrite !map_length.
 Qed.
+
+Theorem update_P_copy_is_triu (Pu P : csc F) :
+  wf_csc Pu = true -> wf_csc P = true -> sorted_cols P = true -> same_pattern (triu P) Pu ->
+  update_P_copy Pu P = Ok (triu P).
+Proof. intros HPu HP _ Hp. now apply update_P_copy_is_triu_any. Qed.
 
 Lemma same_pattern_refl {V} (A : csc V) : same_pattern A A.
 Proof. unfold same_pattern. auto. Qed.
@@ -645,9 +712,9 @@ Proof.
   - exists (triu P). destruct Hpat as (Hr' & Hc' & Hcp & Hri).
     split; [exact Hcopy|]. split; [rewrite <- Hr', <- Hc', <- Hcp, <- Hri; reflexivity|].
     split; [unfold same_pattern; auto|]. split.
-    + intros i j Hij Hj. rewrite triu_get by exact HP.
+    + intros i j Hij Hj. rewrite triu_get by (auto using sorted_upper_first).
       assert (E : i <=? j = true) by (now apply Nat.leb_le). now rewrite E.
-    + intros i j. now apply triu_get.
+    + intros i j. apply triu_get; auto using sorted_upper_first.
 Qed.
 
 (* 2. the result does not depend on how the caller stores the upper triangle *)
@@ -707,9 +774,9 @@ Proof.
     apply sorted_entries_determined.
     - rewrite <- !col_entries_triu by assumption.
       rewrite !col_entries_rows by (now apply wf_triu). now rewrite Hcp1, Hri1, Hcp2, Hri2.
-    - unfold triu_col. apply sinc_filter. now apply sorted_cols_col.
+    - now apply sinc_triu_col.
     - intros i. rewrite <- !col_entries_triu by assumption.
-      rewrite <- !csc_get_entries by (now apply wf_triu). rewrite !triu_get by assumption.
+      rewrite <- !csc_get_entries by (now apply wf_triu). rewrite !triu_get by (auto using sorted_upper_first).
       destruct (i <=? j) eqn:E; [|reflexivity]. apply Hget; [now apply Nat.leb_le | lia]. }
   unfold triu. cbv zeta. rewrite Hcols, Hr1, Hr2, Hc1, Hc2. reflexivity.
 Qed.
@@ -732,14 +799,14 @@ Theorem setup_reads_upper_only_sparse_core : forall P : csc F,
   nrows (triu P) = nrows P /\ ncols (triu P) = ncols P /\
   wf_csc (triu P) = true /\
   upper_only (triu P) = true /\
-  (forall i j, csc_get (triu P) i j = if i <=? j then csc_get P i j else 0%Qc) /\
+  (upper_first_cols P = true -> forall i j, csc_get (triu P) i j = if i <=? j then csc_get P i j else 0%Qc) /\
   triu (triu P) = triu P /\
   (sorted_cols P = true -> sorted_cols (triu P) = true).
 Proof.
   intros P H. repeat split.
   - now apply wf_triu.
   - now apply upper_only_triu.
-  - intros i j. now apply triu_get.
+  - intros Hu i j. now apply triu_get.
   - apply triu_idem.
   - now apply sorted_cols_triu.
 Qed.
@@ -785,7 +852,7 @@ Hypothesis Hup : upper_only A = true.
 
 Lemma upper_only_triu_col j : j < ncols A -> triu_col A j = col_entries A j.
 Proof.
-  intros Hj. unfold triu_col. apply filter_all. intros e He.
+  intros Hj. unfold triu_col. apply takew_all. intros e He.
   assert (Hin : In (fst e) (map fst (col_entries A j))) by (now apply in_map).
   rewrite col_entries_rows in Hin by exact Hwf. unfold seg in Hin.
   rewrite <- (map_nth_seq 0) in Hin by (apply col_bounds; exact Hwf).
@@ -831,23 +898,57 @@ Qed.
 
 End UpperFixed.
 
+Lemma upper_first_triu_filter {V} (A : csc V) : upper_first_cols A = true -> triu A = triu_filter A.
+Proof.
+  intros Hu. assert (Hc : triu_cols A = triu_filter_cols A).
+  { unfold triu_cols, triu_filter_cols. apply map_ext_in. intros j Hj. apply in_seq in Hj.
+    apply upper_first_col; [exact Hu|lia]. }
+  unfold triu, triu_filter. cbv zeta. now rewrite Hc.
+Qed.
+
 Theorem setup_reads_upper_only_sparse_proof : forall P : csc F,
   wf_csc P = true ->
   nrows (triu P) = nrows P /\ ncols (triu P) = ncols P /\
   wf_csc (triu P) = true /\
   upper_only (triu P) = true /\
-  (forall i j, csc_get (triu P) i j = if i <=? j then csc_get P i j else 0%Qc) /\
+  (sorted_cols P = true -> upper_first_cols P = true) /\
+  (upper_first_cols P = true -> triu P = triu_filter P) /\
+  (upper_first_cols P = true -> forall i j, csc_get (triu P) i j = if i <=? j then csc_get P i j else 0%Qc) /\
   triu (triu P) = triu P /\
   (upper_only P = true -> triu P = P) /\
   (sorted_cols P = true -> sorted_cols (triu P) = true).
 Proof.
   intros P H. destruct (setup_reads_upper_only_sparse_core P H) as (H1 & H2 & H3 & H4 & H5 & H6 & H7).
-  repeat (split; [assumption|]). split; [|exact H7].
+  do 4 (split; [assumption|]).
+  split; [intros Hs; now apply sorted_upper_first|].
+  split; [apply upper_first_triu_filter|].
+  split; [exact H5|]. split; [exact H6|]. split; [|exact H7].
   intros Hu. now apply upper_only_triu_fixed.
 Qed.
 
 (* ================= witnesses ================= *)
-(* 3. sortedness is needed: 2 x 2, column 0 stored with the strictly-lower entry FIRST *)
+(* 4'. setup on UNSORTED columns: the iterator of triangularView<Upper> stops at the first entry below the diagonal.
+   2 x 2, both columns stored as (row 1, row 0) / (row 0, row 1): column 0 = [(1,7); (0,2)] is dropped entirely.
+   This is the run of harness/drv_updatep.cpp on the real SparseSolver: P_utri = colptr [0,0,2], rowind [0,1], vals [5,6]. *)
+Definition us_P : csc F := mkcsc 2 2 [0; 2; 4] [1; 0; 0; 1] [qofZ 7; qofZ 2; qofZ 5; qofZ 6].
+Definition us_T : csc F := mkcsc 2 2 [0; 0; 2] [0; 1] [qofZ 5; qofZ 6].
+
+Theorem setup_reads_upper_only_sparse_unsorted_refuted_proof :
+  wf_csc us_P = true /\ sorted_cols us_P = false /\ upper_first_cols us_P = false /\
+  triu us_P = us_T /\
+  triu_filter us_P = mkcsc 2 2 [0; 1; 3] [0; 0; 1] [qofZ 2; qofZ 5; qofZ 6] /\
+  csc_get (triu us_P) 0 0 = 0%Qc /\ csc_get us_P 0 0 = qofZ 2 /\
+  csc_get (triu us_P) 0 0 <> csc_get us_P 0 0.
+Proof.
+  split; [vm_compute; reflexivity|]. split; [vm_compute; reflexivity|]. split; [vm_compute; reflexivity|].
+  split; [vm_compute; reflexivity|]. split; [vm_compute; reflexivity|].
+  split; [apply qeqb_true_eq; vm_compute; reflexivity|].
+  split; [apply qeqb_true_eq; vm_compute; reflexivity|].
+  apply qeqb_false_neq. vm_compute. reflexivity.
+Qed.
+
+(* 3. update on an unsorted caller matrix: 2 x 2, column 0 stored with the strictly-lower entry FIRST; the stored P_utri
+   has the pattern of the upper triangle (as left by a setup with sorted storage) *)
 Definition cx_P : csc F := mkcsc 2 2 [0; 2; 3] [1; 0; 1] [qofZ 7; qofZ 2; qofZ 5].
 Definition cx_Pu : csc F := mkcsc 2 2 [0; 1; 2] [0; 1] [qofZ 0; qofZ 0].
 Definition cx_Pu' : csc F := mkcsc 2 2 [0; 1; 2] [0; 1] [qofZ 7; qofZ 5].
@@ -855,8 +956,8 @@ Definition cx_Pu' : csc F := mkcsc 2 2 [0; 1; 2] [0; 1] [qofZ 7; qofZ 5].
 Theorem update_reads_upper_only_sparse_unsorted_refuted_proof :
   wf_csc cx_Pu = true /\ wf_csc cx_P = true /\
   nrows cx_P = nrows cx_Pu /\ ncols cx_P = ncols cx_Pu /\ nrows cx_P = ncols cx_P /\
-  same_pattern (triu cx_P) cx_Pu /\
-  sorted_cols cx_P = false /\
+  same_pattern (triu_filter cx_P) cx_Pu /\
+  sorted_cols cx_P = false /\ upper_first_cols cx_P = false /\
   update_P_check cx_Pu cx_P = true /\
   update_P_copy cx_Pu cx_P = Ok cx_Pu' /\
   same_pattern cx_Pu' cx_Pu /\
@@ -866,7 +967,7 @@ Proof.
   split; [vm_compute; reflexivity|]. split; [vm_compute; reflexivity|].
   split; [reflexivity|]. split; [reflexivity|]. split; [reflexivity|].
   split; [repeat split; vm_compute; reflexivity|].
-  split; [vm_compute; reflexivity|]. split; [vm_compute; reflexivity|].
+  split; [vm_compute; reflexivity|]. split; [vm_compute; reflexivity|]. split; [vm_compute; reflexivity|].
   split; [reflexivity|].
   split; [repeat split; reflexivity|].
   split; [apply qeqb_true_eq; vm_compute; reflexivity|].
@@ -874,6 +975,8 @@ Proof.
   apply qeqb_false_neq. vm_compute. reflexivity.
 Qed.
 
+(* even when the stored pattern is the one the code itself produces from the unsorted matrix (same_pattern (triu P) Pu),
+   the copy reproduces triu P, whose entry (0,0) is missing *)
 Theorem update_reads_upper_only_sparse_needs_sorted_proof :
   ~ (forall Pu P : csc F,
        wf_csc Pu = true -> wf_csc P = true ->
@@ -884,10 +987,12 @@ Theorem update_reads_upper_only_sparse_needs_sorted_proof :
          (forall i j, i <= j -> j < ncols P -> csc_get Pu' i j = csc_get P i j)).
 Proof.
   intros H.
-  destruct update_reads_upper_only_sparse_unsorted_refuted_proof
-    as (H1 & H2 & H3 & H4 & H5 & H6 & _ & _ & H9 & _ & _ & _ & H13).
-  destruct (H cx_Pu cx_P H1 H2 H3 H4 H5 H6) as (Pu' & Hc & Hg).
-  rewrite H9 in Hc. injection Hc as <-. apply H13. apply Hg; [lia | vm_compute; lia].
+  assert (H2 : wf_csc cx_P = true) by (vm_compute; reflexivity).
+  assert (H1 : wf_csc (triu cx_P) = true) by (now apply wf_triu).
+  destruct (H (triu cx_P) cx_P H1 H2 eq_refl eq_refl eq_refl (same_pattern_refl _)) as (Pu' & Hc & Hg).
+  rewrite (update_P_copy_is_triu_any (triu cx_P) cx_P H1 H2 (same_pattern_refl _)) in Hc. injection Hc as <-.
+  assert (Hne : csc_get (triu cx_P) 0 0 <> csc_get cx_P 0 0) by (apply qeqb_false_neq; vm_compute; reflexivity).
+  apply Hne. apply Hg; [lia | vm_compute; lia].
 Qed.
 
 (* 5. one sorted 3 x 3 matrix [4 1 0; 1 5 2; 0 2 6] in three storages, one stored pattern *)
